@@ -12,6 +12,8 @@ CONSTANTS
   Coarse = FALSE
   RealNodes = {"a"}
   CancelOnReturn = TRUE
+  SkipOnBackendCancel = FALSE
+  EdgeGuard = TRUE
   BSilence = 0
   BCut = 0
   ShutNodes = {}
@@ -26,6 +28,7 @@ INVARIANTS
   OnePerPeer
   ListedIffOpen
   EdgeOnlyWhileHeld
+  EstHasEdge
   RebuildComing
   NoOrphan
   NoInitAfterDone
